@@ -139,6 +139,29 @@ theorem getUtf8_take {s : Bytes} {cp n : Nat} (h : getUtf8 s = some (cp, n)) :
     all_goals simp_all
     all_goals (obtain ⟨rfl, rfl⟩ := h; simp_all [getUtf8])
 
+theorem two_byte_bound (a b : UInt8) : (a.toNat &&& 31) <<< 6 ||| b.toNat &&& 63 < 2048 := by
+  have h1 : a.toNat &&& 31 ≤ 31 := Nat.and_le_right
+  have h2 : b.toNat &&& 63 ≤ 63 := Nat.and_le_right
+  have h3 : (a.toNat &&& 31) <<< 6 < 2 ^ 11 := by rw [Nat.shiftLeft_eq]; omega
+  have h4 : b.toNat &&& 63 < 2 ^ 11 := by omega
+  exact Nat.or_lt_two_pow h3 h4
+
+set_option linter.unusedSimpArgs false in
+theorem getUtf8_cp_bounds {s : Bytes} {cp n : Nat} (h : getUtf8 s = some (cp, n)) (hn : 1 < n) :
+    128 ≤ cp ∧ cp ≤ 0x10FFFF := by
+  match s with
+  | [] => simp [getUtf8] at h
+  | [a] =>
+    simp only [getUtf8, rd_cons_zero, rd_cons_succ, rd_nil, isCont_zero] at h
+    repeat' split at h
+    all_goals simp_all
+    all_goals (obtain ⟨rfl, rfl⟩ := h; first | omega | (have := two_byte_bound a 0; omega))
+  | a :: b :: r =>
+    simp only [getUtf8, rd_cons_zero, rd_cons_succ, rd_nil, isCont_zero] at h
+    repeat' split at h
+    all_goals simp_all
+    all_goals (obtain ⟨rfl, rfl⟩ := h; first | omega | (have := two_byte_bound a b; omega))
+
 /-- `YangText s`: `s` splits into characters `ly_getutf8` accepts — what the XML and JSON lexers let through, i.e.
     what a string value that came from parsed input can hold. -/
 inductive YangText : Bytes → Prop
